@@ -487,8 +487,8 @@ class Gen:
         for accs in (['rw', 'r', 'rw'], ['r', 'rw', 'w']):
             fields = [F(nm, {'k': 'bool'} if k % 3 == 0 else u(2), [('s', 3 * k)] if k % 3 == 0 else [('r', 3 * k, 3 * k + 1)],
                         acc=accs[k % 3]) for k, nm in enumerate(names2)]
-            self.add({'kind': 'bitfield', 'name': self.name('S'), 'base': 64, 'default': {'form': 'lit', 'value': 0}, 'fields': fields}, 'F8',
-                     'accept', ['hygiene', 'accessor-like-field-names'])
+            self.add({'kind': 'bitfield', 'name': self.name('S'), 'base': 64, 'default': {'form': 'lit', 'value': 0}, 'fields': fields,
+                      'debug': all('r' in a for a in accs)}, 'F8', 'accept', ['hygiene', 'accessor-like-field-names'])
         arr = [F(nm, u(2), [('r', 8 * k, 8 * k + 1)], count=2, stride=4) for k, nm in enumerate(['f', 'value', 'index', 'temp', 'result', 'mask'])]
         self.add({'kind': 'bitfield', 'name': self.name('S'), 'base': 64, 'default': {'form': 'lit', 'value': 5}, 'fields': arr}, 'F8', 'accept',
                  ['hygiene', 'array-field-names'])
